@@ -454,7 +454,8 @@ class T:
         for n in ast.walk(ast.Module(body=s.body, type_ignores=[])):
             if isinstance(n, (ast.Break, ast.Continue, ast.Return, ast.Raise, ast.Assign, ast.AugAssign, ast.Try, ast.With, ast.For, ast.While, ast.If)):
                 self.fail('control flow / assignment inside the loop body', n)
-        free = [(n, t) for n, t in self.types.items() if n not in (fp, h) and t in ('int', 'bytes', 'path')]
+        used = {n.id for n in ast.walk(ast.Module(body=s.body + [ast.Expr(it)], type_ignores=[])) if isinstance(n, ast.Name)}
+        free = [(n, t) for n, t in self.types.items() if n not in (fp, h) and n in used and t in ('int', 'bytes', 'path')]
         lname = 'gen_%s_loop' % self.fname
         sub = T(self.fname, list(self.types.items()) + [(var, 'bytes')])
         sub.returns_world = False
